@@ -11,7 +11,7 @@ usage: mutate.py --out DIR [--files f1,f2] [--every K] [--offset O] [--max N] [-
 import argparse, json, os, re, subprocess, sys, time, hashlib
 
 REPO = "/repo"
-WT = "/tmp/mutwt"
+WT = os.environ.get("MUT_WT", "/tmp/mutwt")
 ENV = dict(os.environ, GOFLAGS="-mod=mod", GOPROXY="off", GOSUMDB="off", GOTOOLCHAIN="local")
 
 OPS = [
@@ -119,7 +119,7 @@ def main():
                 if rc != 0:
                     rec["result"] = "does-not-compile"
                 else:
-                    rc, out = sh("go test -vet=off -count=1 -timeout 90s . ./pkg/...", cwd=WT, timeout=200)
+                    rc, out = sh("flock /tmp/mut-suite.lock go test -vet=off -count=1 -timeout 90s . ./pkg/...", cwd=WT, timeout=600)
                     if rc != 0 and "address already in use" in out:
                         print("port of the repository suite is taken: aborting", flush=True)
                         open(p, "w").write(orig)
